@@ -134,6 +134,8 @@ func NameShapes() []NameShape {
 		d("CJK", "模型/模型"),
 		d("emoji", "\U0001F642"),
 		d("combining accent", "e\u0301"),
+		d("CJK extension B and the last code point", "\U00020000/\U0010FFFF"),
+		{Label: "supplementary plane in the base name", Pre: "\U0001D400", Post: "\U00010000", Tail: "\U0001F600"},
 		d("no-break space and zero width space", "a\u00a0b\u200bc"),
 		{Label: "non-ASCII in the base name", Pre: "é", Post: "ü"},
 		// ---- digits and dots that resemble a position
@@ -187,6 +189,8 @@ var namedBodies = []string{
 	"",
 	"\n",
 	"\uFEFFa;",
+	"/* \U0001F600 */ a \"\U00020000\" { \U00010000 '\U0010FFFF' + \"\u0301\"; } b \U0001D400; c;", // supplementary-plane characters before keywords
+	"a '\U0001F600' \U00020000 b; } /* \U0001F600 */ \"k\" \"\U00010000\\q\"; c '\U0010FFFF",       // and before offending tokens
 	"a\xff b\xc3;",
 }
 
